@@ -3,6 +3,8 @@
 Correspondence: (a) `df_util.replace_ref` against `Assemble.replaceRef`, exhaustively on all strings of
 <= N tokens over {R, blank, ',', '(', ')', {c}} containing a reference (values n/a, empty, a tag; also a
 digits-only reference name); the real delimiter checker against `Assemble.delimOk` on the same strings;
+(a2) two different references in one text, both processing orders, exhaustively on the accepted, balanced
+texts of <= N tokens over {R, blank, ',', '(', ')', {a}, {b}} with each reference once as a whole tag;
 (b) `TabularInput(table, sidecar)`: column kinds, reference set, transformer columns and their order,
 `assemble(skip_curly_braces=True)` cells and `list(series_a)` against `Assemble.kind / refsOf / activeCols /
 transformed / seriesWith`, three consecutive calls on one object.
@@ -193,10 +195,36 @@ def check_replace(ctx, texts, name, value, ok, model=None):
                 ctx.violation("splice-result-delimiter-wellformed", case, {"out": out})
 
 
+def check_two(ctx, ok, texts, va, vb):
+    """`{a}` then `{b}` against `{b}` then `{a}` on the implementation; the model follows the first order"""
+    from hed.models.df_util import replace_ref
+    m1 = ctx.model.batch([{"op": "c06.replace_refs", "texts": texts, "name": "a", "value": va,
+                           "variant": "fixed"}])[0]["outs"]
+    m2 = ctx.model.batch([{"op": "c06.replace_refs", "texts": m1, "name": "b", "value": vb,
+                           "variant": "fixed"}])[0]["outs"]
+    trimmed = va == va.strip() and vb == vb.strip()
+    for t, mo in zip(texts, m2):
+        case = {"text": t, "a": va, "b": vb}
+        ctx.case(("2", t, va, vb), nontrivial=True)
+        try:
+            r1 = replace_ref(replace_ref(t, "{a}", va), "{b}", vb)
+            r2 = replace_ref(replace_ref(t, "{b}", vb), "{a}", va)
+        except Exception as e:
+            ctx.violation("replace_ref-raised", case, f"{type(e).__name__}: {e}")
+            continue
+        if r1 != mo:
+            ctx.disagree("Assemble.replaceRef twice = df_util.replace_ref twice", case, mo, r1)
+        if norm(r1) != norm(r2) or (trimmed and r1 != r2):
+            ctx.violation("same-result-for-either-reference-order", case, {"a-then-b": r1, "b-then-a": r2})
+        elif r1 != r2:
+            ctx.count("reference-order-changes-blanks-only")
+        if not ok(r1) or not balanced(r1) or not ok(r2) or not balanced(r2):
+            ctx.violation("two-references-result-wellformed-and-balanced", case, {"a-then-b": r1, "b-then-a": r2})
+
+
 def part_a2(ctx, ok, n):
     """two different references in one text, both orders: every accepted, balanced text of <= n tokens over
     {R, blank, ',', '(', ')', {a}, {b}} with each reference once as a whole tag x all pairs of values"""
-    from hed.models.df_util import replace_ref
     texts = []
     for k in range(2, n + 1):
         for t in itertools.product(TOKENS + ["{a}", "{b}"], repeat=k):
@@ -207,28 +235,7 @@ def part_a2(ctx, ok, n):
     values = ["n/a", "", "X", "(X, Y)", " X ", "X "]
     for va in values:
         for vb in values:
-            m1 = ctx.model.batch([{"op": "c06.replace_refs", "texts": texts, "name": "a", "value": va,
-                                   "variant": "fixed"}])[0]["outs"]
-            m2 = ctx.model.batch([{"op": "c06.replace_refs", "texts": m1, "name": "b", "value": vb,
-                                   "variant": "fixed"}])[0]["outs"]
-            trimmed = va == va.strip() and vb == vb.strip()
-            for t, mo in zip(texts, m2):
-                case = {"text": t, "a": va, "b": vb}
-                ctx.case(("2", t, va, vb), nontrivial=True)
-                try:
-                    r1 = replace_ref(replace_ref(t, "{a}", va), "{b}", vb)
-                    r2 = replace_ref(replace_ref(t, "{b}", vb), "{a}", va)
-                except Exception as e:
-                    ctx.violation("replace_ref-raised", case, f"{type(e).__name__}: {e}")
-                    continue
-                if r1 != mo:
-                    ctx.disagree("Assemble.replaceRef twice = df_util.replace_ref twice", case, mo, r1)
-                if norm(r1) != norm(r2) or (trimmed and r1 != r2):
-                    ctx.violation("same-result-for-either-reference-order", case, {"a-then-b": r1, "b-then-a": r2})
-                elif r1 != r2:
-                    ctx.count("reference-order-changes-blanks-only")
-                if not ok(r1) or not balanced(r1) or not ok(r2) or not balanced(r2):
-                    ctx.violation("two-references-result-wellformed-and-balanced", case, {"a-then-b": r1, "b-then-a": r2})
+            check_two(ctx, ok, texts, va, vb)
         ctx.check_time()
     ctx.extra["two_reference_strings"] = len(texts)
 
@@ -679,7 +686,9 @@ def replay(ctx, rec):
     if not case:
         print("nothing to replay (obligation-only record):", rec.get("broken_obligations"))
         return
-    if "text" in case:
+    if "text" in case and "a" in case:
+        check_two(ctx, ok, [case["text"]], case["a"], case["b"])
+    elif "text" in case:
         check_replace(ctx, [case["text"]], case.get("name", "c"), case.get("value", "n/a"), ok)
     else:
         import shutil
